@@ -116,7 +116,8 @@ class Loop(object):
 class Contract(object):
     def __init__(self, target, types=None, requires="True", ensures=None, raises=None, modifies=None, loops=None,
                  inline=(), assumed=False, returns=None, ghost=None, pure=False, name=None, notes=None,
-                 none_safety=True, frame=True, terminates=True, exc_ensures=None, locals=None, attr_overrides=None):
+                 none_safety=True, frame=True, terminates=True, exc_ensures=None, locals=None, attr_overrides=None,
+                 may_raise=(), allowed_raises=(), terminates_required=False):
         self.target = target
         self.types = types or {}
         self.requires = requires
@@ -136,6 +137,9 @@ class Contract(object):
         self.exc_ensures = exc_ensures
         self.locals = locals or {}
         self.attr_overrides = attr_overrides or {}
+        self.may_raise = tuple(may_raise)  # exceptions the callee may raise on any call (callers get an extra exit)
+        self.allowed_raises = set(allowed_raises)  # exception names this function may let escape
+        self.terminates_required = terminates_required  # every while loop needs a decreases measure
 
     def ensures_items(self):
         e = self.ensures
@@ -204,11 +208,6 @@ class Executor(object):
                 ax.append(self.upper(z3.IntVal(k)) == self.str_ids[u])
             if l in self.str_ids:
                 ax.append(self.lower(z3.IntVal(k)) == self.str_ids[l])
-        # idempotence of case maps; a value that upper-cases to a literal with distinct
-        # content is not another literal
-        x = z3.Int("s!ax")
-        ax.append(z3.ForAll([x], self.upper(self.upper(x)) == self.upper(x), patterns=[self.upper(x)]))
-        ax.append(z3.ForAll([x], self.lower(self.lower(x)) == self.lower(x), patterns=[self.lower(x)]))
         return ax
 
     def field(self, cls, attr):
@@ -267,7 +266,10 @@ class Executor(object):
         kind = f.kind
         if kind.startswith("map:") or kind.startswith("set:"):
             return SV(kind, v, cls=f.cls)
-        return SV(kind, v, none=(z3.Select(na, obj.t) if na is not None else None), cls=f.cls)
+        if kind == "ref" and not f.opt:
+            st.assume(v != NONE)  # type invariant of a non-optional reference field
+        return SV(kind, v, none=(z3.Select(na, obj.t) if na is not None else None), cls=f.cls,
+                  x=("nonnull" if kind == "ref" and not f.opt else None))
 
     def set_attr(self, st, obj, attr, val, lineno=None):
         if obj.kind != "ref":
@@ -1181,6 +1183,8 @@ class Executor(object):
         for p, ty in c.types.items():
             if p in env and p != "return":
                 f = parse_type(ty)
+                if f.kind == "opaque":
+                    continue
                 v = env[p]
                 if v.kind == "none" or v.kind != f.kind:
                     env[p] = self.coerce(v, f, "argument %s of %s" % (p, c.name))
@@ -1202,7 +1206,9 @@ class Executor(object):
         # result
         res = NoneV()
         rt = c.types.get("return")
-        if rt:
+        if rt and parse_type(rt).kind == "opaque":
+            res = self.opaque()
+        elif rt:
             f = parse_type(rt)
             res = self.fresh(f.kind, "ret_%s" % fn.name, cls=f.cls, opt=f.opt)
             if f.kind == "bits":
